@@ -63,6 +63,94 @@ type gen struct {
 	r      *cq.RNG
 	seen   map[string]bool
 	lo, hi uint32 // span of the own frequencies of the band being processed
+	nbr    bool   // snapshots also probe the unit-conversion neighbours of the stored channel frequencies
+}
+
+// neighbours of a stored lookup key f (a channel frequency in Hz): the values
+// a comparison in another unit (100 Hz, 1 kHz) or with an off-by-one would
+// confuse with f. None of them is f itself.
+func neighbours(f uint32) []uint32 {
+	var out []uint32
+	seen := map[uint32]bool{f: true}
+	add := func(v int64) {
+		if v < 0 || v > 4294967295 || seen[uint32(v)] {
+			return
+		}
+		seen[uint32(v)] = true
+		out = append(out, uint32(v))
+	}
+	x := int64(f)
+	for _, d := range []int64{1, 49, 50, 99, 100, 101, 999, 1000, 1001} {
+		add(x + d)
+		add(x - d)
+	}
+	add(x / 100 * 100)        // rounded down to the 100 Hz unit of the MAC layer
+	add(x/100*100 + 99)       // last value of the same 100 Hz bucket
+	add(x/100*100 + 1)        // first value after the bucket start
+	add((x + 50) / 100 * 100) // rounded to 100 Hz
+	add(x / 1000 * 1000)      // 1 kHz
+	add(x/1000*1000 + 999)
+	add((x + 500) / 1000 * 1000)
+	add(x / 100) // the value in the other unit
+	add(x / 1000)
+	add(x * 100)
+	add(x / 2) // NewChannelReq's 200 Hz rule
+	add(x * 2)
+	return out
+}
+
+// neighbourProbes: for the channels of the table (all when there are at most
+// 16, otherwise the first, the last and six random ones) every neighbour
+// frequency is looked up by frequency (both classes) and by frequency + DR
+// (a DR inside the channel's range and one above it). For the bands whose RX1
+// frequency is found through the same lookup the RX1-frequency call must
+// fail exactly when no standard channel has that frequency (checked here).
+func (g *gen) neighbourProbes(cfg chanobs.Config, b band.Band, upc []chanobs.Chan, ops []chanobs.Op) (probes, txt []string) {
+	r := g.r
+	n := len(upc)
+	var pick []int
+	if n <= 16 {
+		for i := 0; i < n; i++ {
+			pick = append(pick, i)
+		}
+	} else {
+		pick = []int{0, n - 1}
+		for k := 0; k < 6; k++ {
+			pick = append(pick, r.Intn(n))
+		}
+	}
+	rx1 := cfg.Name == band.US915 || cfg.Name == band.AU915 || cfg.Name == band.CN470
+	for _, i := range pick {
+		c := upc[i]
+		for _, f := range append([]uint32{c.Freq}, neighbours(c.Freq)...) {
+			for _, d := range []bool{true, false} {
+				p, t := probeLookup(b, f, d)
+				probes, txt = append(probes, p), append(txt, t)
+			}
+			for _, dr := range []int{c.MinDR, c.MaxDR + 1} {
+				p, t := probeLookupDR(b, f, dr)
+				probes, txt = append(probes, p), append(txt, t)
+			}
+			if rx1 {
+				exact := false
+				for _, u := range upc {
+					if u.Freq == f && !u.Custom {
+						exact = true
+					}
+				}
+				var v uint32
+				k := chanobs.Call(func() error { var err error; v, err = b.GetRX1FrequencyForUplinkFrequency(f); return err })
+				if k == chanobs.KPanic || (k == chanobs.KOk) != exact {
+					g.s.Fail(cases.GoFail{Key: fmt.Sprintf("rx1-lookup:%s:freq=%d:near=%d", cfg.Name, f, c.Freq),
+						What: "GetRX1FrequencyForUplinkFrequency must succeed exactly for the frequencies of the band's own uplink channels",
+						Replay: map[string]interface{}{"band": cfg.String(), "history": chanobs.OpsStrings(ops), "uplink_frequency": f,
+							"neighbour_of_channel": i, "channel_frequency": c.Freq, "a_standard_channel_has_this_frequency": exact,
+							"observed": fmt.Sprintf("%s %d", chanobs.KindName(k), v)}})
+				}
+			}
+		}
+	}
+	return probes, txt
 }
 
 // span of the frequencies a fresh instance of the band uses itself: uplink and
@@ -158,6 +246,10 @@ func (g *gen) snapshot(cfg chanobs.Config, b band.Band, ops []chanobs.Op) snap {
 		c, t = probeLookupDR(b, f, dr)
 		probes = append(probes, c)
 		probeTxt = append(probeTxt, t)
+	}
+	if g.nbr {
+		p, t := g.neighbourProbes(cfg, b, upc, ops)
+		probes, probeTxt = append(probes, p...), append(probeTxt, t...)
 	}
 	return snap{obs: obs, probes: probes, probeTxt: probeTxt, n: n, upc: upc, downs: downs, cfl: cfl, enabled: enabled}
 }
@@ -525,7 +617,7 @@ func main() {
 	dir, seed, thorough := cases.Args()
 	r := cq.NewRNG(seed)
 	s := cases.New("C15", dir, "LW.Corr.C15",
-		"14 bands (x repeater x dwell) x histories of up to 30 AddChannel/Disable/Enable calls with arbitrary ints (negative, huge, boundary) and frequencies (duplicates, zero, non-multiples of 100 Hz, 2.4 GHz, 32-bit extremes), each call under recover; after each history every accessor is read (all index lists, every uplink/downlink channel with its flags, GetCFList for 7 versions, index probes, lookups by frequency and frequency+DR); every frequency / DR / CFList the band then produces goes through the real RXParamSetupReq, NewChannelReq, DLChannelReq, PingSlotChannelReq, BeaconFreqReq, CFList and JoinAccept encoders and decoders; traces on one long-lived instance whose alphabet includes the observation calls (every accessor, GetCFList, LinkADRReq planning + apply), each answer compared with the model state at its position: every accessor directly before and after AddChannel / Disable / Enable, random interleavings with full snapshots; for US915/AU915/CN470 histories switching whole 16-channel blocks off (all, alternating, runs of 2-4 adjacent blocks at every position, single block left, sub-bands) whose channel-mask CFList must come back from the join-accept naming exactly the enabled channels. Non-trivial = history non-empty (CHist) or any encoder case; distinct = distinct printed case")
+		"14 bands (x repeater x dwell) x histories of up to 30 AddChannel/Disable/Enable calls with arbitrary ints (negative, huge, boundary) and frequencies (duplicates, zero, non-multiples of 100 Hz, 2.4 GHz, 32-bit extremes), each call under recover; after each history every accessor is read (all index lists, every uplink/downlink channel with its flags, GetCFList for 7 versions, index probes, lookups by frequency and frequency+DR); every frequency / DR / CFList the band then produces goes through the real RXParamSetupReq, NewChannelReq, DLChannelReq, PingSlotChannelReq, BeaconFreqReq, CFList and JoinAccept encoders and decoders; traces on one long-lived instance whose alphabet includes the observation calls (every accessor, GetCFList, LinkADRReq planning + apply), each answer compared with the model state at its position: every accessor directly before and after AddChannel / Disable / Enable, random interleavings with full snapshots; for US915/AU915/CN470 histories switching whole 16-channel blocks off (all, alternating, runs of 2-4 adjacent blocks at every position, single block left, sub-bands) whose channel-mask CFList must come back from the join-accept naming exactly the enabled channels. lookups by frequency and by frequency+DR (and the RX1-frequency lookup of US915/AU915/CN470) for the unit-conversion neighbours of every stored channel frequency (f+-1, +-49, +-50, +-99, +-100, +-101, +-1 kHz, rounded to 100 Hz / 1 kHz, bucket ends, f/100, f/1000, f*100, f/2, f*2) after histories adding custom channels at non-multiples of 100 Hz, two inside one 100 Hz bucket, one inside the bucket of a standard channel. Non-trivial = history non-empty (CHist) or any encoder case; distinct = distinct printed case")
 	g := &gen{s: s, r: r, seen: map[string]bool{}}
 	cfgs := chanobs.Configs()
 	byName := func(n band.Name) chanobs.Config {
@@ -593,6 +685,39 @@ func main() {
 			g.history("blocks-"+bp.tag, cfgs[base+r.Intn(4)], bp.ops)
 		}
 	}
+
+	// ---- lookups keyed by a frequency: unit-conversion neighbours of every stored
+	// channel frequency, after histories that add custom channels at non-multiples
+	// of 100 Hz, two customs inside one 100 Hz bucket, a custom inside the bucket of
+	// a standard channel and a custom with the frequency of a standard channel ----
+	// corpus (seeded-defect trial): 867100000 DR0-5 and 867100050 DR6
+	g.nbr = true
+	g.history("corpus-lookup-same-100hz-bucket", byName(band.EU868), []chanobs.Op{chanobs.Add(867100000, 0, 5), chanobs.Add(867100050, 6, 6)})
+	for _, name := range chanobs.Names {
+		reps := 1
+		if thorough {
+			reps = 8
+		}
+		for rep := 0; rep < reps; rep++ {
+			cfg := cfgs[byName(name).Index+r.Intn(4)]
+			ups := chanobs.Uplinks(cfg.New())
+			f0 := ups[r.Intn(len(ups))].Freq
+			base := ups[0].Freq + uint32(100000*(1+r.Intn(40)))
+			odd := ups[0].Freq + uint32(100000*(41+r.Intn(20))) + uint32(1+r.Intn(99))
+			ops := []chanobs.Op{
+				chanobs.Add(base, 0, 5), chanobs.Add(base+uint32(1+r.Intn(99)), 6, 6), // one 100 Hz bucket, disjoint DR ranges
+				chanobs.Add(odd, 0, 5), chanobs.Add(odd/100*100, 0, 3), // non-multiple of 100 Hz and the start of its bucket
+				chanobs.Add(f0+uint32(1+r.Intn(99)), 0, 5),                                           // inside the bucket of a standard channel
+				chanobs.Add(f0, 6, 7),                                                                // the frequency of a standard channel
+				chanobs.Add(base+1000, 0, 5), chanobs.Add(base/1000*1000+uint32(r.Intn(1000)), 0, 5), // 1 kHz neighbours
+			}
+			if r.Intn(2) == 0 {
+				ops = append(ops, chanobs.Disable(chanobs.RandIndex(r, len(ups)+4)))
+			}
+			g.history("lookup-neighbours", cfg, ops)
+		}
+	}
+	g.nbr = false
 
 	// ---- observation - call - observation, every accessor x every call -------
 	for _, name := range chanobs.Names {
